@@ -23,6 +23,9 @@ def slice_triangles_by_plane(
     from ._trimesh_intersections import slice_faces_plane
 
     vg.shape.check(locals(), "vertices", (-1, 3))
+    # Work on (and return) float64 coordinates whatever float or integer dtype
+    # was passed in; every return path then satisfies the assertion below.
+    vertices = np.asarray(vertices, dtype=np.float64)
     num_faces = vg.shape.check(locals(), "faces", (-1, 3))
     vg.shape.check(locals(), "plane_reference_point", (3,))
     vg.shape.check(locals(), "plane_normal", (3,))
